@@ -152,7 +152,7 @@ def reproduced (f : File) : Bool := decide (f.roundtrip = .ok f.flatten)
     and an indentation run, `;` attached, at most one blank line at the end (under the exclusion of
     `C18.frag_spacing_nf`, and like it for the files without `assert` and with at most one blank line
     after the colon of a lambda: containers, parentheses, calls, `with`, select, `or`, lambda, unary and
-    binary operators — `File.basic`). -/
+    binary operators, `if` / `then` / `else`, has-attr — `File.basic`). -/
 theorem frag_reproduced_is_normal_form (f : File) (s : Src) (hwf : f.wf = true) (_hws : f.noLeadingWs = true)
     (hbasic : f.basic = true) (hp : f.parse = .ok s) (hclean : s.beforeFlatB = true) (hr : reproduced f = true) :
     concat s.rebuildP = f.flatten ∧ (summ s.rebuildP).fileOk = true := by
